@@ -42,7 +42,11 @@ var (
 )
 
 func runSolver(cfg solverCfg, file string, timeoutMs int) (string, float64, string) {
-	ctx, cancel := context.WithTimeout(context.Background(), time.Duration(timeoutMs+3000)*time.Millisecond)
+	return runSolverCtx(context.Background(), cfg, file, timeoutMs)
+}
+
+func runSolverCtx(parent context.Context, cfg solverCfg, file string, timeoutMs int) (string, float64, string) {
+	ctx, cancel := context.WithTimeout(parent, time.Duration(timeoutMs+3000)*time.Millisecond)
 	defer cancel()
 	args := append(cfg.args(timeoutMs), file)
 	cmd := exec.CommandContext(ctx, cfg.bin, args...)
@@ -224,14 +228,30 @@ func dischargeVC(vc *VC, workDir string, quickMs, slowMs int, sem chan struct{})
 			if o.Cover {
 				cfgs = []solverCfg{z3newDefault, cvc5}
 				tmo = 2500
+				if !siteCoversComplete {
+					// quick tier: one complete-mode look of a second (the thorough tier asks both solvers for longer)
+					cfgs = []solverCfg{z3newDefault}
+					tmo = 1000
+				}
 			}
 			ch := make(chan res, len(cfgs))
+			// the first solver to discharge the obligation wins; the others are stopped
+			rctx, rcancel := context.WithCancel(context.Background())
+			defer rcancel()
 			for _, c := range cfgs {
 				go func(c solverCfg) {
 					sem <- struct{}{}
 					defer func() { <-sem }()
-					out, secs, name := runSolver(c, file, tmo)
-					ch <- res{firstVerdict(out), out, name, secs}
+					if rctx.Err() != nil {
+						ch <- res{"cancelled", "", c.name, 0}
+						return
+					}
+					out, secs, name := runSolverCtx(rctx, c, file, tmo)
+					v := firstVerdict(out)
+					if rctx.Err() != nil && v != "unsat" && v != "sat" {
+						v = "cancelled"
+					}
+					ch <- res{v, out, name, secs}
 				}(c)
 			}
 			var all []res
@@ -251,6 +271,7 @@ func dischargeVC(vc *VC, workDir string, quickMs, slowMs int, sem chan struct{})
 				if r.verdict == "unsat" && !decided {
 					o.Result, o.Backend, o.Secs = "unsat", r.backend, r.secs
 					decided = true
+					rcancel()
 				}
 			}
 			if o.Cover {
